@@ -38,6 +38,10 @@ EDIT_CLASSES = [
     ("private_field_type", False, "FieldHashData", "rust_type"),
     ("field_visibility", False, "FieldHashData", "is_public"),
     ("cmd_async", False, "CommandHashData", "is_async"),
+    # attributes the tool does not read today: editing them changes nothing that is generated (if one of them ever starts
+    # to matter it has to enter the key as well)
+    ("channel_serde_rename", False, "ChannelHashData", "serde_rename"),
+    ("field_serde_default", False, "FieldHashData", "serde_default"),
     ("cmd_order", False, "CommandHashData", "name"),
     ("param_order", False, "ParameterHashData", "name"),
     ("field_order", False, "FieldHashData", "name"),
@@ -80,9 +84,9 @@ def render_sources(st):
     variants2 = "    Active,\n    Inactive,\n" if g("variant_order") % 2 == 0 else "    Inactive,\n    Active,\n"
     src = (
         "use serde::{Deserialize, Serialize};\n\n"
-        "#[derive(Debug, Clone, Serialize, Deserialize)]\n%spub struct User {\n%s%s    pub user_name: %s,\n%s    pub hidden_note: i32,\n    secret_level: %s,\n    %sshown_level: i32,\n%s%s}\n\n"
+        "#[derive(Debug, Clone, Serialize, Deserialize)]\n%spub struct User {\n%s%s    pub user_name: %s,\n%s    pub hidden_note: i32,\n    secret_level: %s,\n    %sshown_level: i32,\n%s    pub retries: u8,\n%s%s}\n\n"
         % (rename_all, field_attr, validator, fty, skip, alt(g("private_field_type"), ["i32", "String", "Vec<bool>"]),
-           alt(g("field_visibility"), ["pub ", "", "pub(crate) "]), extra, tail_fields)
+           alt(g("field_visibility"), ["pub ", "", "pub(crate) "]), alt(g("field_serde_default"), ["", "    #[serde(default)]\n", '    #[serde(default = "three")]\n']), extra, tail_fields)
         + "#[derive(Debug, Clone, Serialize, Deserialize)]\npub enum Status {\n%s%s%s}\n\n" % (vren, variants2, variant)
     )
     audit_ty = alt(g("event_only_field"), ["String", "i32", "Vec<String>"])
@@ -95,8 +99,9 @@ def render_sources(st):
     p2 = "verbose_flag: bool"
     plist = "%s, %s" % ((p1, p2) if g("param_order") % 2 == 0 else (p2, p1))
     main_cmd = (
-        "#[tauri::command]\n%spub %sfn %s(%s, on_event: Channel<%s>) -> Result<%s, String> {\n    todo!()\n}\n\n"
-        % (cra, alt(g("cmd_async"), ["", "async "]), cmd, plist, chan, ret)
+        "#[tauri::command]\n%spub %sfn %s(%s, %son_event: Channel<%s>) -> Result<%s, String> {\n    todo!()\n}\n\n"
+        % (cra, alt(g("cmd_async"), ["", "async "]), cmd, plist,
+           alt(g("channel_serde_rename"), ["", '#[serde(rename = "onProgress")] ', '#[serde(rename = "progressSink")] ']), chan, ret)
     )
     if not st.get("_noevents", False):
         second = ("#[tauri::command]\npub fn notify(app: AppHandle, %s) -> Result<(), String> {\n    app.emit(\"%s\", &user).ok();\n"
